@@ -32,7 +32,8 @@ def err(code, msg=b"x"):
 
 def mk_case(content=b"", chunks=(), netascii=False, options=(), max_bs=65464, max_tmo=30, default_tmo=2,
             retries=1, wrap=0, kind=("noreg",), events=(), proc=0):
-    """kind: ("noreg",) ChunkedStream without fileno | ("bytesio", prefix_len) | ("file", prefix_len) | ("pipe",)"""
+    """kind: ("noreg",) ChunkedStream without fileno | ("bytesio", prefix_len) | ("file", prefix_len) | ("pipe",) |
+    ("sized",) | ("bufshort",) | ("seekpos", prefix_len) seekable stream without fileno handed over at prefix_len"""
     return {"content": bytes(content), "chunks": list(chunks), "netascii": bool(netascii),
             "options": [(str(a), str(b)) for a, b in options], "max_bs": max_bs, "max_tmo": max_tmo,
             "default_tmo": default_tmo, "retries": retries, "wrap": wrap, "kind": tuple(kind),
@@ -44,7 +45,7 @@ def mk_case(content=b"", chunks=(), netascii=False, options=(), max_bs=65464, ma
 def kind_sx(c):
     k = c["kind"]
     n = len(c["content"])
-    if k[0] in ("noreg", "bufshort", "sized"):
+    if k[0] in ("noreg", "bufshort", "sized", "seekpos"):
         return [2]
     # optional third element: the position is that many bytes BEYOND the end (legal for BytesIO and files;
     # the content of such a case is empty: nothing can be read there)
@@ -108,6 +109,34 @@ class SizedStream(fake_net.ChunkedStream):
         return super().__exit__(*a)
 
 
+class SeekableStream(fake_net.ChunkedStream):
+    """seekable, without a file descriptor (like a ZIP member or a decompressing reader), handed over at position
+    `prefix`: what the handler supplies is what read() returns from there on; its size is unknown to os.fstat"""
+    _log = None
+
+    def __init__(self, prefix, content, chunks):
+        super().__init__(b"P" * prefix + bytes(content), chunks)
+        self.pos = prefix
+
+    def seekable(self):
+        return True
+
+    def tell(self):
+        return self.pos
+
+    def seek(self, offset, whence=io.SEEK_SET):
+        base = {io.SEEK_SET: 0, io.SEEK_CUR: self.pos, io.SEEK_END: len(self.content)}[whence]
+        if base + offset < 0:
+            raise ValueError("negative seek position")
+        self.pos = base + offset
+        return self.pos
+
+    def __exit__(self, *a):
+        if self._log is not None:
+            self._log.append(("close_file",))
+        return super().__exit__(*a)
+
+
 class BufferedChunkedStream(io.BufferedIOBase):
     """an io.BufferedIOBase subclass whose read(n) still returns short reads (allowed: "at most n bytes")"""
     _log = None
@@ -155,6 +184,9 @@ def open_stream(c, log, tmpfiles):
         f._log = log
     elif k[0] == "bufshort":
         f = BufferedChunkedStream(c["content"], c["chunks"])
+        f._log = log
+    elif k[0] == "seekpos":
+        f = SeekableStream(k[1], c["content"], c["chunks"])
         f._log = log
     elif k[0] == "bytesio":
         f = _LoggedBytesIO(b"P" * k[1] + c["content"])
